@@ -6,7 +6,7 @@ import multiprocessing as mp
 from vf import common, findings
 from vf.props import deductive
 
-KEYS = ["doctrans.ast_utils:RewriteAtQuery.generic_visit", "vf.contracts.laws:replace_at_location", "doctrans.ast_utils:find_in_ast", "doctrans.ast_utils:annotate_ancestry", "doctrans.ast_utils:RewriteAtQuery.visit_FunctionDef"]
+KEYS = ["doctrans.pure_utils:strip_split", "doctrans.ast_utils:RewriteAtQuery.generic_visit", "vf.contracts.laws:replace_at_location", "doctrans.ast_utils:find_in_ast", "doctrans.ast_utils:annotate_ancestry", "doctrans.ast_utils:RewriteAtQuery.visit_FunctionDef"]
 NAMES = ("a", "b", "c")
 
 
